@@ -23,10 +23,15 @@ import (
 // ---- read-your-writes through the follower API ------------------------------------------------------
 
 type WOp struct {
-	Kind string `json:"kind"` // put | delrange | txn | txn-empty-branch | restart-follower | reset-table | recover-table
+	Kind string `json:"kind"` // put | delrange | txn | txn-empty-branch | restart-follower | reset-table | recover-table | leader-put | leader-delrange
 	K    []byte `json:"k"`
 	V    []byte `json:"v,omitempty"`
 	End  []byte `json:"end,omitempty"`
+	// delrange: the options of the request (the answer then carries a count / the previous pairs; seeded change C11-K: a forwarded delete
+	// that found nothing to delete on the leader is acknowledged without waiting for the follower)
+	Count  bool `json:"count,omitempty"`
+	PrevKv bool `json:"prev_kv,omitempty"`
+	// leader-put / leader-delrange: ANOTHER client writes to the leader cluster directly; the follower learns of it with its next poll
 }
 
 type RYWCase struct {
@@ -41,7 +46,12 @@ func genRYW(t *rapid.T) RYWCase {
 	n := rapid.IntRange(1, 8).Draw(t, "n")
 	for i := 0; i < n; i++ {
 		op := WOp{K: rapid.SampledFrom(rywKeys).Draw(t, "k"), V: []byte(fmt.Sprintf("v%d", i))}
-		switch rapid.IntRange(0, 8).Draw(t, "kind") {
+		switch rapid.IntRange(0, 10).Draw(t, "kind") {
+		case 10:
+			op.Kind = "leader-put"
+		case 9:
+			op.Kind = "leader-delrange"
+			op.End = rapid.SampledFrom([][]byte{nil, nil, {0}}).Draw(t, "end")
 		case 8:
 			// the follower's copy of the table is replaced by a snapshot recovery (what the worker does once the leader compacted its log)
 			op.Kind = "recover-table"
@@ -57,6 +67,7 @@ func genRYW(t *rapid.T) RYWCase {
 		case 3:
 			op.Kind = "delrange"
 			op.End = rapid.SampledFrom([][]byte{nil, {0}, []byte("c")}).Draw(t, "end")
+			op.Count, op.PrevKv = rapid.Bool().Draw(t, "count"), rapid.Bool().Draw(t, "prevkv")
 		case 4:
 			op.Kind = "txn"
 		default:
@@ -124,7 +135,7 @@ func runRYW(c RYWCase, o *vt.Obs) *vt.Failure {
 
 	m := model.New()
 	emptyBranch := 0
-	restarts, resets, recoveries := 0, 0, 0
+	restarts, resets, recoveries, direct := 0, 0, 0, 0
 	for i, op := range c.Ops {
 		if op.Kind == "reset-table" {
 			tb, err := p.F.E.GetTable(name)
@@ -171,6 +182,32 @@ func runRYW(c RYWCase, o *vt.Obs) *vt.Failure {
 			restarts++
 			continue
 		}
+		if op.Kind == "leader-put" || op.Kind == "leader-delrange" {
+			ctx, cancel := context.WithTimeout(context.Background(), 15*time.Second)
+			var err error
+			if op.Kind == "leader-put" {
+				_, err = p.L.E.Put(ctx, &regattapb.PutRequest{Table: []byte(name), Key: op.K, Value: op.V})
+				if err == nil {
+					m.Put(op.K, op.V)
+				}
+			} else {
+				_, err = p.L.E.Delete(ctx, &regattapb.DeleteRangeRequest{Table: []byte(name), Key: op.K, RangeEnd: op.End})
+				if err == nil {
+					if op.End == nil {
+						m.Del(op.K)
+					} else {
+						m.DelRange(op.K, op.End)
+					}
+				}
+			}
+			cancel()
+			if err != nil {
+				vt.Inconclusive("C11 direct leader write: " + err.Error())
+				return nil
+			}
+			direct++
+			continue
+		}
 		ctx, cancel := context.WithTimeout(context.Background(), 15*time.Second)
 		var err error
 		var rev uint64
@@ -184,7 +221,7 @@ func runRYW(c RYWCase, o *vt.Obs) *vt.Failure {
 			}
 		case "delrange":
 			var r *regattapb.DeleteRangeResponse
-			r, err = api.DeleteRange(ctx, &regattapb.DeleteRangeRequest{Table: []byte(name), Key: op.K, RangeEnd: op.End})
+			r, err = api.DeleteRange(ctx, &regattapb.DeleteRangeRequest{Table: []byte(name), Key: op.K, RangeEnd: op.End, Count: op.Count, PrevKv: op.PrevKv})
 			if err == nil {
 				rev = r.Header.Revision
 				if op.End == nil {
@@ -244,6 +281,9 @@ func runRYW(c RYWCase, o *vt.Obs) *vt.Failure {
 	}
 	if resets > 0 {
 		o.Label("follower-table-reset-between-forwarded-writes")
+	}
+	if direct > 0 {
+		o.Label("another-client-writes-to-the-leader-between-forwarded-writes")
 	}
 	if recoveries > 0 {
 		o.Label("follower-table-recovered-from-snapshot-between-forwarded-writes")
